@@ -872,12 +872,21 @@ def gen_frac(rng, n, ortho):
 def case_periodic(rng, ctx, triclinic):
     box, bkind = gen_box(rng, triclinic)
     ortho = not triclinic
+    int_box = bkind == "ortho" and rng.random() < 0.15
+    if int_box:
+        # box given as an integer array, e.g. np.diag([30, 24, 36]): the coordinates keep their fractional digits
+        box = np.diag(np.maximum(2.0, np.round(np.diag(box))))
+        bkind = "ortho_integer_dtype"
     n = gen_n(rng, hi=(120 if ctx.tier == "quick" else 200))
     F, fkind = gen_frac(rng, n, ortho)
     P = F @ box
     form = str(rng.choice(["f64", "f64", "f32", "atomarray", "f64_box32"]))
+    if int_box and form in ("atomarray", "f64_box32"):
+        form = "f64"
     P_in = P if form in ("f64", "f64_box32") else P.astype(np.float32)
     box_in = box if form in ("f64", "f32") else box.astype(np.float32)
+    if int_box:
+        box_in = box.astype(np.int64 if rng.random() < 0.5 else np.int32)
     box_f32 = box_in.dtype == np.float32
     sel_obj, sel, selkind = gen_selection(rng, ctx, n)
     P_act = np.asarray(P_in, dtype=np.float64)
